@@ -21,7 +21,8 @@ func loopIndexPhis(f *ssa.Function) []*ssa.Phi {
 		if !ok || !isIntegerT(p.Type()) || len(p.Edges) != 2 {
 			return
 		}
-		if k, ok := constInt(p.Edges[0]); !ok || k != 0 {
+		// for i := 0; …; i++ starts at 0; for i := range x is compiled with a counter that starts at −1 and is used as counter+1
+		if k, ok := constInt(p.Edges[0]); !ok || (k != 0 && k != -1) {
 			return
 		}
 		if b, ok := stripConv(p.Edges[1]).(*ssa.BinOp); ok && b.Op == token.ADD && stripConv(b.X) == ssa.Value(p) {
@@ -51,8 +52,82 @@ func checkC20(c *Ctx) (string, []string) {
 
 	c.Rule("C20.shuffle", "numericSequenceFromHash: r_i is the 4-byte little-endian number at offset 4i mod 32 of Blake2b(h ⌢ E_4(⌊i/8⌋)) (the block counter and the offsets are evaluated for i = 0..5000); FisherYatesShuffle selects s[r_0 mod |s|], swaps it with the last element, recurses on (s[:|s|-1], r[1:]) and prepends the selected element; Shuffle draws |s| numbers", 10)
 	c20NumericSequence(c, nsq, ser, des)
-	c.checkEffects("C20.shuffle", S+"SerializeFixedLength", ser, abbrAll(effectShapesOpt(ser, nil, true)), []string{"store &make([]byte, p1)[*] ← u8((255 & phi((cyc >> 8) | p0)))"})
-	c.checkShapes("C20.shuffle", S+"DeserializeFixedLength", des, abbrMap(returnShapes(des)), map[string][]string{"ret": {"phi(((cyc << 8) | u64(p0[phi((cyc - 1) | (len(p0) - 1))])) | 0)"}})
+	// the fixed-length little-endian helpers, bit by bit (bit-provenance abstract interpretation, bitfield.go)
+	{
+		bad := ""
+		for l := 0; l <= 8 && bad == ""; l++ {
+			m := &bfMachine{maxSteps: 20000}
+			x := bfInt{w: 64}
+			for j := 0; j < 64; j++ {
+				x.b[j] = bfBit{k: 2, i: uint16(j)}
+			}
+			args := make([]any, len(ser.Params))
+			for i, p := range ser.Params {
+				if w, s, ok := bfWidth(p.Type()); ok && w == 64 && !s {
+					args[i] = x
+				} else if ok {
+					args[i] = bfConst(uint64(l), w, s)
+				} else {
+					args[i] = bfUnknown{"parameter"}
+				}
+			}
+			for _, o := range m.call(ser, args, bfHeap{}, 0) {
+				sl, isSl := bfUnknown{}, false
+				var out bfSlice
+				_ = sl
+				if o.fault == "" && len(o.results) == 1 {
+					out, isSl = o.results[0].(bfSlice)
+				}
+				if !isSl || out.hi-out.lo != l {
+					bad = fmt.Sprintf("length %d: %s %v", l, o.fault, o.results)
+					break
+				}
+				for k := 0; k < l && bad == ""; k++ {
+					el := bfElem(o.heap, out.obj, out.lo+k)
+					for j := 0; j < 8; j++ {
+						if el.b[j] != (bfBit{k: 2, i: uint16(8*k + j)}) {
+							bad = fmt.Sprintf("length %d: bit %d of byte %d is %s, expected bit %d of x", l, j, k, bfBitString(el.b[j]), 8*k+j)
+						}
+					}
+				}
+			}
+		}
+		c.Check(bad == "", "C20.shuffle", S+"SerializeFixedLength", ser.Pos(), "byte k of E_l(x) is bits 8k..8k+7 of x, for l = 0..8 and symbolic x", "SerializeFixedLength is not the l-byte little-endian form: "+bad)
+		bad = ""
+		for n := 0; n <= 8 && bad == ""; n++ {
+			m := &bfMachine{maxSteps: 20000}
+			heap := bfHeap{}
+			arr := m.newArray(heap, n)
+			for b := 0; b < n; b++ {
+				v := bfInt{w: 8}
+				for j := 0; j < 8; j++ {
+					v.b[j] = bfBit{k: 2, i: uint16(8*b + j)}
+				}
+				heap[arr][b] = v
+			}
+			for _, o := range m.call(des, []any{bfSlice{obj: arr, lo: 0, hi: n, cp: n}}, heap, 0) {
+				v, isInt := bfInt{}, false
+				if o.fault == "" && len(o.results) == 1 {
+					v, isInt = o.results[0].(bfInt)
+				}
+				if !isInt {
+					bad = fmt.Sprintf("%d bytes: %s", n, o.fault)
+					break
+				}
+				for j := 0; j < 64; j++ {
+					var want bfBit
+					if j < 8*n {
+						want = bfBit{k: 2, i: uint16(j)}
+					}
+					if v.b[j] != want {
+						bad = fmt.Sprintf("%d bytes: bit %d of the result is %s, expected %s", n, j, bfBitString(v.b[j]), bfBitString(want))
+						break
+					}
+				}
+			}
+		}
+		c.Check(bad == "", "C20.shuffle", S+"DeserializeFixedLength", des.Pos(), "bit 8k+j of the value is bit j of byte k, for 0..8 symbolic bytes", "DeserializeFixedLength is not the little-endian value of its bytes: "+bad)
+	}
 	c20FisherYates(c, fy)
 	c.checkShapes("C20.shuffle", S+"Shuffle", sh, abbrMap(returnShapes(sh)), map[string][]string{"ret": {"shuffle.FisherYatesShuffle(p0, shuffle.numericSequenceFromHash(p1, u32(len(p0))))"}})
 
@@ -147,6 +222,27 @@ func checkC20(c *Ctx) (string, []string) {
 					ncall++
 					a := ci.Common().Args[0]
 					_, fresh := stripConv(a).(*ssa.MakeSlice)
+					if hc, isCall := stripConv(a).(*ssa.Call); isCall && !fresh {
+						// a package helper that hands out a slice it has just made, on every return
+						if g := hc.Call.StaticCallee(); g != nil && len(g.Blocks) > 0 {
+							fresh = true
+							nret := 0
+							allInstrs(g, func(x ssa.Instruction) {
+								if r, isR := x.(*ssa.Return); isR {
+									nret++
+									res := retResults(r)
+									if len(res) == 0 {
+										fresh = false
+										return
+									}
+									if _, mk := stripConv(resolveLocal(res[0])).(*ssa.MakeSlice); !mk {
+										fresh = false
+									}
+								}
+							})
+							fresh = fresh && nret > 0
+						}
+					}
 					c.Check(fresh, "C20.determinism", funcKey(f)+" · argument of "+callee.Name(), in.Pos(), "passes a slice made in this call", "passes "+abbr(exprStr(a, shapeOpts))+", which outlives the call: the in-place shuffle corrupts it for the next evaluation")
 				})
 			}
@@ -158,20 +254,35 @@ func checkC20(c *Ctx) (string, []string) {
 	{
 		idx := loopIndexPhis(perm)
 		var baseVal ssa.Value
-		allInstrs(perm, func(in ssa.Instruction) {
-			if st, ok := in.(*ssa.Store); ok {
-				if strings.HasPrefix(abbr(exprStr(st.Addr, shapeOpts)), "&make([]types.U32, types.ValidatorsCount)[") {
-					baseVal = st.Val
+		findBase := func(g *ssa.Function) {
+			allInstrs(g, func(in ssa.Instruction) {
+				if st, ok := in.(*ssa.Store); ok && baseVal == nil {
+					if strings.HasPrefix(abbr(exprStr(st.Addr, shapeOpts)), "&make([]types.U32, types.ValidatorsCount)[") {
+						baseVal = st.Val
+						idx = loopIndexPhis(g)
+					}
 				}
-			}
-		})
+			})
+		}
+		findBase(perm)
+		if baseVal == nil {
+			// built by a package helper
+			allInstrs(perm, func(in ssa.Instruction) {
+				if call, ok := in.(*ssa.Call); ok && baseVal == nil {
+					if g := call.Call.StaticCallee(); g != nil && len(g.Blocks) > 0 && g.Pkg == perm.Pkg {
+						findBase(g)
+					}
+				}
+			})
+		}
 		ok, why := baseVal != nil && len(idx) >= 1, "base assignment store not found"
 		if ok {
 			for _, cv := range append([][2]int64{{2, 6}, {341, 1023}, {3, 7}, {16, 100}}, c20MoreParams(c)...) {
 				for k := int64(0); k < cv[1] && ok; k++ {
 					good := false
 					for _, ip := range idx {
-						got, ok1 := evalInt(baseVal, intEnv{params: map[ssa.Value]int64{ip: k}, globals: map[string]int64{"CoresCount": cv[0], "ValidatorsCount": cv[1]}}, 0)
+						start, _ := constInt(ip.Edges[0])
+						got, ok1 := evalInt(baseVal, intEnv{params: map[ssa.Value]int64{ip: k + start}, globals: map[string]int64{"CoresCount": cv[0], "ValidatorsCount": cv[1]}}, 0)
 						if ok1 && got == cv[0]*k/cv[1] {
 							good = true
 						}
@@ -183,17 +294,22 @@ func checkC20(c *Ctx) (string, []string) {
 			}
 		}
 		c.Check(ok, "C20.assignment", extrPkg+".permute · base", perm.Pos(), "base[i] = ⌊C·i/V⌋ for C,V ∈ {(2,6),(341,1023),(3,7),(16,100)}", why)
-		rc := "internal/extrinsic.rotateCores(shuffle.Shuffle(make([]types.U32, types.ValidatorsCount), p0), u32(((int(p1) % types.EpochLength) / types.RotationPeriod)))"
-		has := false
-		for _, e := range abbrAll(effectShapesOpt(perm, func(n string) bool { return strings.Contains(n, "rotateCores") }, false)) {
-			if e == "call "+rc {
-				has = true
-			}
+		// the whole composition as one term, with package helpers seen through and append-in-a-loop / indexed fill equated
+		S := "shuffle.Shuffle(make([]types.U32, types.ValidatorsCount){[*] ← u32(((* * types.CoresCount) / types.ValidatorsCount))}, p0)"
+		n := "u32(((int(p1) % types.EpochLength) / types.RotationPeriod))"
+		wantPerm := "each[u16(each[((" + S + "[*] + " + n + ") % u32(types.CoresCount))][*])]"
+		var gotPerm []string
+		for _, s := range returnShapesO(perm, robustOpts)["ret"] {
+			gotPerm = append(gotPerm, normEach(abbr(s)))
 		}
-		c.Check(has, "C20.assignment", extrPkg+".permute · shuffle and rotation", perm.Pos(), "rotateCores(Shuffle(base, entropy), ⌊(slot mod E)/R⌋)", "permute does not rotate Shuffle(base, entropy) by ⌊(slot mod E)/R⌋")
-		c.checkShapes("C20.assignment", extrPkg+".permute · result", perm, abbrMap(returnShapes(perm)), map[string][]string{"ret": {"make([]types.CoreIndex, len(" + rc + "))"}})
+		wantPerm = normEach(wantPerm)
+		c.Check(len(gotPerm) == 1 && gotPerm[0] == wantPerm, "C20.assignment", extrPkg+".permute · shuffle and rotation", perm.Pos(), "every element is CoreIndex((Shuffle(base, entropy)[i] + ⌊(slot mod E)/R⌋) mod C)", "permute does not return the element-wise rotation of Shuffle(base, entropy) by ⌊(slot mod E)/R⌋: "+strings.Join(gotPerm, " | "))
+		var gotRot []string
+		for _, s := range returnShapesO(rot, robustOpts)["ret"] {
+			gotRot = append(gotRot, normEach(abbr(s)))
+		}
+		c.Check(len(gotRot) == 1 && gotRot[0] == "each[((p0[*] + p1) % u32(types.CoresCount))]", "C20.assignment", extrPkg+".rotateCores", rot.Pos(), "every element is (x + n) mod C", "rotateCores does not map every x to (x + n) mod C: "+strings.Join(gotRot, " | "))
 	}
-	c.checkEffects("C20.assignment", extrPkg+".rotateCores", rot, abbrAll(effectShapesOpt(rot, nil, true)), []string{"store &make([]types.U32, len(p0))[*] ← ((p0[*] + p1) % u32(types.CoresCount))"})
 	c.checkShapes("C20.assignment", extrPkg+".NewGuranatorAssignments", nga, abbrMap(returnShapes(nga)), map[string][]string{
 		"ret.CoreAssignments": {"internal/extrinsic.permute(p0, p1)"}, "ret.PublicKeys": {"make([]types.Validator, len(internal/safrole.ReplaceOffenderKeys(p2)))"},
 	})
